@@ -289,7 +289,7 @@ class BatchRepeatLinearOperator(LinearOperator):
 
         inv_quad_term, logdet_term = self.base_linear_op.inv_quad_logdet(inv_quad_rhs, logdet, reduce_inv_quad=False)
 
-        if inv_quad_term is not None and inv_quad_term.numel():
+        if inv_quad_rhs is not None and inv_quad_term is not None and inv_quad_term.numel():
             inv_quad_term = inv_quad_term.view(*inv_quad_term.shape[:-1], -1, 1, self.batch_repeat.numel())
             output_shape = list(output_shape)
             output_shape[-2] = 1
